@@ -22,6 +22,8 @@ fn main() {
     ranges("is_whitespace", char::is_whitespace); println!(",");
     ranges("is_lowercase", char::is_lowercase); println!(",");
     ranges("is_uppercase", char::is_uppercase); println!(",");
-    ranges("is_control", char::is_control);
+    ranges("is_control", char::is_control); println!(",");
+    // chars that `{:?}` on a String prints unchanged at any position (not escaped, not quoted)
+    ranges("debug_plain", |c| c != '\'' && c.escape_debug().count() == 1);
     println!("}}");
 }
